@@ -194,3 +194,29 @@ Example sort_desc_example :
   sp_parts_desc [0; 10; 20; 30]%Z [30; 0; 10; 29; 9; 20]%Z = [[30; 29; 20]; [10]; [0; 9]]%Z /\
   keys_above [0; 10; 20; 30]%Z [30; 0; 10; 29; 9; 20]%Z.
 Proof. split; [vm_compute; reflexivity|]. intros v Hv. simpl in Hv. simpl. lia. Qed.
+Lemma filter_split_len : forall (f : Z -> nat) n rows,
+  length (filter (fun v => f v <? n) rows) + length (filter (fun v => f v =? n) rows)
+  = length (filter (fun v => f v <? S n) rows).
+Proof.
+  intros f n rows. induction rows as [|v r IH]; simpl; [reflexivity|].
+  destruct (f v <? n) eqn:E1; destruct (f v =? n) eqn:E2; destruct (f v <? S n) eqn:E3; simpl; lia.
+Qed.
+
+Lemma route_length_lt : forall (f : Z -> nat) rows n,
+  length (concat (map (fun i => filter (fun v => f v =? i) rows) (seq 0 n)))
+  = length (filter (fun v => f v <? n) rows).
+Proof.
+  intros f rows n. induction n as [|n IH].
+  - simpl. induction rows as [|v r IHr]; simpl; [reflexivity|]. exact IHr.
+  - rewrite seq_S, map_app, concat_app, app_length, IH. simpl. rewrite app_nil_r.
+    apply filter_split_len.
+Qed.
+
+(* the output partitions hold exactly as many rows as the input: with set_index_partition_exact, no row is duplicated *)
+Theorem set_index_row_count : forall divs rows, 2 <= length divs ->
+  length (concat (sp_parts divs rows)) = length rows.
+Proof.
+  intros divs rows Hl. unfold sp_parts. rewrite route_length_lt.
+  rewrite filter_all_true; [reflexivity|].
+  intros v _. pose proof (sp_part_bound divs v Hl). lia.
+Qed.
